@@ -119,9 +119,7 @@ func (e *Env) TempDir() string {
 	case 6:
 		name += "-\u00e9\u65e5"
 	case 4:
-		if e.caseTag%16 == 4 {
-			name += " back\\slash" // the escape character of glob patterns, and nothing else special
-		}
+		name += " back\\slash" // the escape character of glob patterns, and nothing else special
 	case 1:
 		if e.caseTag%16 == 1 {
 			name += " [v4]" // characters a glob pattern would interpret
